@@ -133,7 +133,7 @@ func runReplay(repo string, rf *replayFile, path string) (string, bool) {
 	if _, err := os.Stat(driver); err != nil {
 		return "no replay driver for package " + pkgDir, false
 	}
-	if rf.Inputs == nil {
+	if rf.Inputs == nil && !scenarioDriver(driver) {
 		return "solver gave no model to replay", false
 	}
 	tmp, err := os.MkdirTemp("", "govc-replay")
@@ -145,7 +145,7 @@ func runReplay(repo string, rf *replayFile, path string) (string, bool) {
 	ovData, _ := json.Marshal(ov)
 	ovPath := filepath.Join(tmp, "overlay.json")
 	os.WriteFile(ovPath, ovData, 0o644)
-	cmd := exec.Command("go", "test", "-overlay", ovPath, "-vet=off", "-count=1", "-v", "-timeout", "60s", "-run", "^TestGovcReplay$", "./"+pkgDir)
+	cmd := exec.Command("go", "test", "-overlay", ovPath, "-vet=off", "-count=1", "-v", "-timeout", "120s", "-run", "^TestGovcReplay$", "./"+pkgDir)
 	cmd.Dir = repo
 	cmd.Env = append(os.Environ(), "GOFLAGS=-mod=mod", "GOPROXY=off", "GOSUMDB=off", "GOTOOLCHAIN=local", "GOVC_REPLAY_FILE="+path)
 	out, _ := cmd.CombinedOutput()
@@ -156,6 +156,13 @@ func runReplay(repo string, rf *replayFile, path string) (string, bool) {
 		}
 	}
 	return "replay driver produced no verdict: " + trim(string(out), 400), false
+}
+
+// scenarioDriver: drivers for concurrency packages replay scenarios chosen from the obligation name and
+// need no solver model.
+func scenarioDriver(path string) bool {
+	data, err := os.ReadFile(path)
+	return err == nil && strings.Contains(string(data), "maps the failed obligation to the scenario")
 }
 
 func replayCmd(args []string) int {
@@ -352,10 +359,11 @@ func check(args []string) int {
 			path := filepath.Join(replayDir, sanitizeName(o.Name)+".json")
 			writeJSON(path, rf)
 			reproduced := false
-			if !*noReplay && o.Result == "sat" {
+			if !*noReplay {
 				rf.Replayed, reproduced = runReplay(*repo, rf, path)
-			} else if o.Result != "sat" {
-				rf.Replayed = "no counterexample: the solver answered " + o.Result + " on an obligation that is discharged on the pinned tree"
+			}
+			if !reproduced && o.Result != "sat" {
+				rf.Replayed = "no counterexample from the solver (it answered " + o.Result + " on an obligation that is discharged on the pinned tree); " + rf.Replayed
 			}
 			rf.Note = "failed proof obligation of the contract-based verification; see goal, solver_output and smt_file"
 			writeJSON(path, rf)
